@@ -41,7 +41,8 @@ ASSUMPTIONS = [
     "edges() of a simple graph must be sorted as listed and contain every edge once in some orientation; the "
     "orientation itself (u<v) is not asserted",
     "from_networkx on foreign networkx graphs: labels are an increasing integer relabelling of 1..n; for bipartite "
-    "graphs the vertices are inserted in increasing order (the class relabels each side by order of appearance)",
+    "graphs the vertices of each side are inserted in increasing order (the class relabels each side by order of "
+    "appearance, Graph/DirectedGraph by sorted label), possibly the whole right side before the left side",
 ]
 
 NMAX = 12          # vertex growth is capped so that the cost of a step stays bounded
